@@ -1,4 +1,5 @@
 """C20 - every ingestion path builds the same estimator; concatenate! adds nothing."""
+import math
 import random
 import time
 
@@ -235,7 +236,13 @@ def shard(desc):
         n = rng.randint(0, 6) if r < 0.4 else (rng.randint(6, 40) if r < 0.85 else rng.randint(40, 200))
         xs, _ = gen.sequence(rng, n=n) if n else ([], None)
         for typ in SINGLE:
-            c, marks = ingestion_case('%s-%d' % (desc['name'], cid), typ, xs, 1, rng)
+            ys = xs
+            if typ in ('Min', 'Max') and n and rng.random() < 0.4:
+                # ties between +0 and -0, infinities and NaN: the extreme is decided by how a tie is resolved, which the add
+                # loop and collect / extend must resolve alike (bit for bit: +0 != -0)
+                ys = [rng.choice([0.0, -0.0, 0.0, -0.0, 1.0, -1.0, math.inf, -math.inf, float('nan')]) for _ in xs]
+                res.count('minmax_sequences_with_signed_zero_ties')
+            c, marks = ingestion_case('%s-%d' % (desc['name'], cid), typ, ys, 1, rng)
             cid += 1
             cases.append(c)
             plan.append((c, marks, typ))
@@ -249,13 +256,15 @@ def shard(desc):
         cases.extend(cc.values())
         catplan.append(cc)
     # long pieces (several thousand items in ONE extend call) onto a non-empty receiver
-    for i in range(desc.get('nlongpiece', 0)):
+    vl_types = desc.get('verylong_types') or []
+    for i in range(desc.get('nlongpiece', 0) + len(vl_types)):
         typ = rng.choice(SINGLE + PAIR)
-        ar = 2 if typ in PAIR else 1
         n = rng.randint(4200, 9000)
-        if i == 0 and desc.get('verylong'):
+        if i < len(vl_types):
+            typ = vl_types[i]
             n = rng.randint(66000, 80000)      # one piece beyond 2^16 items in a single extend / collect call
             res.count('very_long_piece_cases')
+        ar = 2 if typ in PAIR else 1
         xs, _ = gen.sequence(rng, n=n)
         data = pair_values(rng, typ, n) if ar == 2 else xs
         c, marks = ingestion_case('%s-%d' % (desc['name'], cid), typ, data, ar, rng, splits=(rng.randint(1, 12), rng.randint(12, 40)))
@@ -277,7 +286,7 @@ def shard(desc):
             c.op('M', 0, 0)
         regs = [(0, 'add')]
         for r_, code, how in ((1, 'E', 'extend'), (2, 'ER', 'extend_ref')):
-            c.op('K', r_, 0)
+            c.op(rng.choice(['K', 'KF']), r_, 0)
             c.op(code, r_, more[:2 * ar])
             c.op(code, r_, more[2 * ar:])
             regs.append((r_, how))
@@ -331,12 +340,12 @@ def run(tier, seed):
             nsh = common.NPROC * mult
             descs = [{'name': '%s%d' % (variant[0], s), 'variant': variant, 'binary': binary,
                       'nseq': max(1, int(nseq * frac) // nsh), 'nshort': max(1, int(nshort * frac) // nsh),
-                      'nlongpiece': 3, 'nhuge': 6, 'verylong': s < 4 and variant == 'release',
+                      'nlongpiece': 3, 'nhuge': 6, 'verylong_types': ((SINGLE + PAIR)[s::4] if (s < 4 and variant == 'release') else []),
                       'seed': seed * 1000003 + s * 7919 + sum(map(ord, variant))} for s in range(nsh)]
             total.merge(common.run_shards(shard, descs))
     except common.Inconclusive as e:
         total.inconclusive.append(str(e))
-    need = {'long_piece_cases': 20, 'very_long_piece_cases': 4, 'huge_count_cases': 40, 'path_comparisons': 5000, 'estimate_checks': 2000, 'concatenate_comparisons': 2000, 'all_split_cases': 200}
+    need = {'long_piece_cases': 20, 'very_long_piece_cases': 12, 'huge_count_cases': 40, 'path_comparisons': 5000, 'estimate_checks': 2000, 'concatenate_comparisons': 2000, 'all_split_cases': 200}
     for t in SINGLE + PAIR:
         need['cases_%s' % t] = 50
     return common.finish(PROP, tier, seed, total, RULE, t0, ASSUME, min_events=need,
